@@ -56,6 +56,16 @@ CAUGHT.update({
  "C13-5": ("C13", "C13 read: wrong number of callers woke on data arrival; readable data left unclaimed"), "C13-6": ("C13, C02", "C13 read: wrong number of callers woke on data arrival (through FEC recovery)"),
  "C15-5": ("C15", "C15 library goroutine still alive / scheduled callback still pending (part 1c)"), "C15-6": ("C15, C01", "C15 pooled buffer recycled twice for one acquisition"),
 })
+CAUGHT.update({
+ "C03-5": ("C03", "C03 transfer did not resume and complete after the reader resumed"), "C03-6": ("C03", "C03 transfer did not resume and complete after the reader resumed"),
+ "C06-5": ("C06", "C06 integrity failure not counted as exactly one checksum error; state changed"), "C06-6": ("C06", "C06 datagram failing the integrity check changed session state"),
+ "C07-5": ("C07, C13", "C07 [session] a packet the decoder could rebuild did not reach the stream"), "C07-6": ("C07", "C07 decoder emitted a shard with an invalid size field / not an original data packet"),
+ "C10-5": ("C10", "C10 child died: panic: slice bounds out of range [:1501] with capacity 1500"), "C10-6": ("C10", "C10 core handed its output callback an empty or over-MTU packet (stale-ACK patterns)"),
+ "C14-5": ("C14", "C14 data race: decrypt16 vs encrypt16 (SM4)"), "C14-6": ("C14", "C14 data race: KCP.SetMtu vs UDPSession.SendOOB"),
+ "C16-5": ("C16", "C16 [after convergence] missing data packet not reconstructed"), "C16-6": ("C16", "C16 session decoder did not adopt the peer's ratio"),
+ "C18-5": ("C18", "C18 retransmission counters moved on a clean path (partial batch writes through hook H5)"), "C18-6": ("C18", "C18 retransmission counters moved on a clean path (getter pollers)"),
+ "C19-5": ("C19", "C19 child died: panic: index out of range / slice bounds (truncated OOB frame)"), "C19-6": ("C19", "C19 a library lock was never released: goroutines wait for it for ever (lock watch)"),
+})
 NOTE = {
  "C17-4": "not kept: on the tree before fix 3121c8c this change could not be told apart from the unchanged scheduler's own lateness (S19, found by the busy-worker part written for it); with S19 repaired the change no longer alters behaviour and its demonstration passes",
 }
